@@ -36,6 +36,7 @@ type Op struct {
 	Qual  string `json:"q,omitempty"`     // "" | before | after | around
 	Specs []int  `json:"specs,omitempty"` // class index per required argument, -1 = t
 	ID    int    `json:"id,omitempty"`    // method id (def)
+	Twice bool   `json:"twice,omitempty"` // an :around that calls call-next-method twice
 	Args  []int  `json:"args,omitempty"`  // class index of each argument (call)
 }
 
@@ -99,7 +100,9 @@ func genOp(r *tape.Rand, arity int, nextID *int, wDef, wRem, wCall int) Op {
 	switch {
 	case x < wDef:
 		*nextID++
-		return Op{K: "def", Qual: quals[r.Intn(len(quals))], Specs: spec(), ID: *nextID}
+		op := Op{K: "def", Qual: quals[r.Intn(len(quals))], Specs: spec(), ID: *nextID}
+		op.Twice = op.Qual == "around" && r.Pct(20)
+		return op
 	case x < wDef+wRem:
 		return Op{K: "rem", Qual: quals[r.Intn(len(quals))], Specs: spec()}
 	}
@@ -160,6 +163,7 @@ type method struct {
 	qual  string
 	specs []int
 	id    int
+	twice bool
 }
 
 func key(qual string, specs []int) string {
@@ -172,7 +176,11 @@ type table map[string]method
 func (t table) canon() string {
 	keys := make([]string, 0, len(t))
 	for k, m := range t {
-		keys = append(keys, fmt.Sprintf("%s=%d", k, m.id))
+		id := m.id
+		if m.twice {
+			id = -id // the sign carries the "calls call-next-method twice" flag
+		}
+		keys = append(keys, fmt.Sprintf("%s=%d", k, id))
 	}
 	sort.Strings(keys)
 	return strings.Join(keys, ";")
@@ -187,6 +195,9 @@ func parseTable(s string) table {
 		var m method
 		k, idstr, _ := strings.Cut(kv, "=")
 		fmt.Sscan(idstr, &m.id)
+		if m.id < 0 {
+			m.id, m.twice = -m.id, true
+		}
 		q, sp, _ := strings.Cut(k, "|")
 		m.qual = q
 		sp = strings.Trim(sp, "[]")
@@ -268,27 +279,35 @@ func dispatch(t table, args []int) expect {
 			primaries = append(primaries, a.m)
 		}
 	}
-	var tr []string
-	for _, m := range arounds {
-		tr = append(tr, fmt.Sprintf("in%d", m.id))
-	}
+	var inner []string
 	for _, m := range befores {
-		tr = append(tr, fmt.Sprintf("b%d", m.id))
+		inner = append(inner, fmt.Sprintf("b%d", m.id))
 	}
 	ex := expect{value: "nil"}
 	if len(primaries) > 0 {
-		tr = append(tr, fmt.Sprintf("p%d", primaries[0].id))
+		inner = append(inner, fmt.Sprintf("p%d", primaries[0].id))
 		ex.value = fmt.Sprint(primaries[0].id)
 	} else {
 		ex.noPrimary = true
 	}
 	for i := len(afters) - 1; i >= 0; i-- {
-		tr = append(tr, fmt.Sprintf("a%d", afters[i].id))
+		inner = append(inner, fmt.Sprintf("a%d", afters[i].id))
 	}
-	for i := len(arounds) - 1; i >= 0; i-- {
-		tr = append(tr, fmt.Sprintf("out%d", arounds[i].id))
+	// call-next-method from around i continues with around i+1, then the
+	// inner methods; an around that calls it twice runs the rest twice
+	var chain func(i int) []string
+	chain = func(i int) []string {
+		if i == len(arounds) {
+			return inner
+		}
+		m := arounds[i]
+		tr := append([]string{fmt.Sprintf("in%d", m.id)}, chain(i+1)...)
+		if m.twice {
+			tr = append(append(tr, fmt.Sprintf("again%d", m.id)), chain(i+1)...)
+		}
+		return append(tr, fmt.Sprintf("out%d", m.id))
 	}
-	ex.trace = strings.Join(tr, " ")
+	ex.trace = strings.Join(chain(0), " ")
 	return ex
 }
 
@@ -309,7 +328,7 @@ func step(state string, in Op, out output) (bool, string, string) {
 		if out.Cond != "" {
 			return false, state, fmt.Sprintf("defmethod failed: %s %s", out.Cond, out.Msg)
 		}
-		t[key(in.Qual, in.Specs)] = method{qual: in.Qual, specs: in.Specs, id: in.ID}
+		t[key(in.Qual, in.Specs)] = method{qual: in.Qual, specs: in.Specs, id: in.ID, twice: in.Twice}
 		return true, t.canon(), ""
 	case "rem":
 		k := key(in.Qual, in.Specs)
@@ -434,6 +453,9 @@ func (w *world) source(op Op) string {
 		case "around":
 			// next-method-p must agree with what call-next-method then does
 			body = fmt.Sprintf(`(sim-emit (if (next-method-p) "in%d" "in%d-no-next")) (let ((r (call-next-method))) (sim-emit "out%d") r)`, op.ID, op.ID, op.ID)
+			if op.Twice {
+				body = fmt.Sprintf(`(sim-emit (if (next-method-p) "in%d" "in%d-no-next")) (call-next-method) (sim-emit "again%d") (let ((r (call-next-method))) (sim-emit "out%d") r)`, op.ID, op.ID, op.ID, op.ID)
+			}
 		case "before":
 			body = fmt.Sprintf(`(sim-emit "b%d") 'ignored`, op.ID)
 		case "after":
